@@ -373,6 +373,16 @@ func (vfs *MemFS) Link(oldname, newname string) (err error) {
 
 	avfs.VerifBeforeLock(&c.mu, true)
 	c.mu.Lock()
+
+	if c.nlink == 0 {
+		// The last name of the file was removed since the old path was resolved : both paths are resolved again.
+		c.mu.Unlock()
+
+		again = true
+
+		return nil
+	}
+
 	nParent.addChild(pi.Part(), c)
 
 	c.nlink++
